@@ -25,6 +25,7 @@ from tools.gen import pegaccess as gen_peg
 from tools.gen import unmarsh as gen_unmarsh
 from tools.gen import vmguards as gen_vmguards
 from tools.gen import nanbox as gen_nanbox
+from tools.gen import envvalid as gen_envvalid
 from tools.gen.csrc import ExtractError
 
 from vlib import build as vbuild
@@ -38,7 +39,9 @@ THEOREMS = ["JanetModel.Props.C10." + t for t in (
     "JanetModel.Props.C10.witness_missing_check_over_reads", "JanetModel.Props.C10.witness_uncounted_env_recursion",
     "JanetModel.Unmarsh.Bytes.unmarshal_total_inbounds_generic", "JanetModel.Unmarsh.Bytes.unmarshal_terminates_generic",
     "JanetModel.Unmarsh.Bytes.unmarshal_depth_bounded_generic", "JanetModel.Props.C10.unmarshal_depth_bounded_of_sites_ok",
-    "JanetModel.Props.C10.real_is_number_of_ok", "JanetModel.Props.C10.real_never_a_pointer_of_ok", "JanetModel.Props.C10.witness_unsafe_real_forges_pointer"]
+    "JanetModel.Props.C10.real_is_number_of_ok", "JanetModel.Props.C10.real_never_a_pointer_of_ok", "JanetModel.Props.C10.witness_unsafe_real_forges_pointer",
+    "JanetModel.Props.C10.env_valid_sound_of_shape", "JanetModel.Props.C10.witness_env_valid_without_slotcount"]
+ENVVALID_OBLIGATIONS = ["JanetModel.Unmarsh.EnvValidObligations.env_valid_shape", "JanetModel.Unmarsh.EnvValidObligations.env_valid_sound"]
 NANBOX_OBLIGATIONS = ["JanetModel.Unmarsh.NanBoxObligations." + t for t in ("nanbox_ok", "real_is_number", "real_never_a_pointer")]
 GUARD_OBLIGATIONS = ["JanetModel.Bytecode.GuardObligations.vm_value_guards", "JanetModel.Bytecode.GuardObligations.vm_value_guards_nonempty"]
 BYTES_OBLIGATIONS = ["JanetModel.Unmarsh.BytesObligations." + t for t in ("sites_ok", "refs_checked", "depths_ok", "unmarshal_total_inbounds", "unmarshal_terminates", "unmarshal_depth_bounded", "peg_size_checked", "asm_ok_only_after_verify")] + [
@@ -397,6 +400,46 @@ def witness_images(ig, lb, ops):
     return w
 
 
+def envvalid_correspondence(ctx, exe, hx, ig, lb, ops, broken, quick):
+    """Lean model of janet_env_valid (shape extracted from the current fiber.c) vs the real function: a function image whose
+    environment is the untrusted on-stack variant over a fiber with 1..5 frames is unmarshalled by the ASan harness (op `e`),
+    janet_env_valid is called on the environment; result, offset and length afterwards must agree"""
+    st = {"compared": 0, "differ": 0, "valid": 0, "invalid": 0, "rejected_images": 0}
+    if not exe:
+        return st, []
+    rng = ctx.rng.fork("envvalid")
+    cs = [ig.gen_env_valid_case(rng, lb, ops) for _ in range(4000 if quick else 60000)]
+    outs, crashes = run_parallel(hx, ["e " + c[0].hex() for c in cs])
+    model = ctx.model(["envvalidshape"] + [c[1] for c in cs], exe=exe)
+    if model[0] != "true":
+        broken.append("env_valid_sound: janet_env_valid of the current fiber.c lacks a test the theorem needs (Gen/EnvValid.shape)")
+    diffs = []
+    for c, o, m in zip(cs, outs, model[1:]):
+        if o is None:
+            continue
+        if not o.startswith("env "):
+            st["rejected_images"] += 1
+            continue
+        st["compared"] += 1
+        got = o.split("->")[1].strip()
+        st["valid" if got.startswith("1") else "invalid"] += 1
+        if got != m.strip():
+            st["differ"] += 1
+            if len(diffs) < 5:
+                diffs.append({"case": c[2], "input": "e " + c[0].hex(), "impl": o, "model": m})
+    for idx, rc, err in crashes[:1]:
+        ctx.violation("crash:" + classify(rc, err), {"kind": "crash", "generator": "envvalid", "mutation": cs[idx][2], "input": "e " + cs[idx][0].hex(), "rc": rc, "stderr": err[-3000:]},
+                      what="janet_env_valid / unmarshal of an on-stack environment image: %s" % classify(rc, err))
+    if diffs:
+        broken.append("correspondence janet_env_valid model / implementation: %d differing, first %r" % (st["differ"], diffs[0]))
+        ctx.broken.append(broken[-1])
+    if st["rejected_images"] > len(cs) // 10:
+        broken.append("janet_env_valid correspondence: %d of %d generated images are rejected by the unmarshaller (generator out of date)" % (st["rejected_images"], len(cs)))
+        ctx.broken.append(broken[-1])
+    # the same images go through the main pool as `u` inputs: the function is called and executes `ldu 0 0 V` on that environment
+    return st, [("envfn", c[2], "u " + c[0].hex()) for c in cs[:1500 if quick else 20000]]
+
+
 def nanbox_patterns(rng, n_random):
     """64-bit payloads: every tag x interesting payloads x sign / quiet bit, exponent / mantissa boundaries, random"""
     ws = set()
@@ -565,7 +608,7 @@ def run(ctx):
         broken.append("translator: %s" % e)
         ctx.broken.append(broken[-1])
     # the session-3 translators are independent of the ones above: a shape change seen by one must not hide the others' tables
-    for fname, mod in (("UnmarshSites.lean", gen_unmarsh), ("VmGuards.lean", gen_vmguards), ("NanBox.lean", gen_nanbox)):
+    for fname, mod in (("UnmarshSites.lean", gen_unmarsh), ("VmGuards.lean", gen_vmguards), ("NanBox.lean", gen_nanbox), ("EnvValid.lean", gen_envvalid)):
         try:
             ctx.gen(fname, mod.render(tree))
         except ExtractError as e:
@@ -602,6 +645,7 @@ def run(ctx):
     broken += guard_broken
     nan_broken = ctx.obligations("JanetModel.Unmarsh.NanBoxObligations", NANBOX_OBLIGATIONS)
     broken += nan_broken
+    broken += ctx.obligations("JanetModel.Unmarsh.EnvValidObligations", ENVVALID_OBLIGATIONS)
     if not quick and not broken:
         ok, log = ctx.leanchecker("JanetModel.Props.C10")
         if not ok:
@@ -620,6 +664,9 @@ def run(ctx):
     # (D0) NaN-boxing model vs the real unmarshaller on 64-bit payloads after LB_REAL
     nstats, nan_cases = nanbox_correspondence(ctx, exe, lb, broken, quick)
     ctx.say("nanbox model correspondence: %s" % json.dumps(nstats))
+    # (D0b) model of janet_env_valid vs the real function on unmarshalled untrusted on-stack environments
+    estats, env_cases = envvalid_correspondence(ctx, exe, hx, ig, lb, ops, broken, quick)
+    ctx.say("janet_env_valid model correspondence: %s" % json.dumps(estats))
     # (D) correspondence of the verify model with the real janet_verify
     vrng = ctx.rng.fork("verify")
     vlines = []
@@ -700,7 +747,7 @@ def run(ctx):
     wit = sorted(witness_images(ig, lb, ops).items())
     for name, b in wit:
         cases.insert(0, ("witness", name, "u " + b.hex()))
-    cases = [c if len(c) == 4 else tuple(c) + (None,) for c in synth + nan_cases + cases]
+    cases = [c if len(c) == 4 else tuple(c) + (None,) for c in synth + nan_cases + env_cases + cases]
     # (D4, first half) inputs for the byte-level model correspondence: the same byte strings once more as `m` lines (plain
     # janet_unmarshal with &next, no exercising), run in the same pool; the Lean driver works on them meanwhile
     bpick = []
@@ -972,7 +1019,7 @@ def run(ctx):
                 "function/fiber is then called with 6 argument vectors / resumed, cancelled, stepped, iterated, printed, hashed, compared, re-marshalled and collected",
         "samples": [c[2][:80] for c in cases[:3]] + [c[2][:80] for c in cases[len(cases) // 2:len(cases) // 2 + 2]],
         "generators": stats, "accepted": acc_total, "reject_classes": dict(sorted(rej_classes.items(), key=lambda kv: -kv[1])[:25]),
-        "crash_signatures": {k: v[3] for k, v in by_sig.items()}, "fiber_model_correspondence": mstats, "function_model_correspondence": fstats, "nanbox_model_correspondence": nstats, "peg_model_correspondence": pstats, "bytes_model_correspondence": bstats, "bad_read_sites": bad_sites, "uncounted_recursion_paths": bad_depths,
+        "crash_signatures": {k: v[3] for k, v in by_sig.items()}, "fiber_model_correspondence": mstats, "function_model_correspondence": fstats, "nanbox_model_correspondence": nstats, "env_valid_model_correspondence": estats, "peg_model_correspondence": pstats, "bytes_model_correspondence": bstats, "bad_read_sites": bad_sites, "uncounted_recursion_paths": bad_depths,
         "deep_nesting": deep_stats,
         "peg_bad_rows": [pegrows.name_of.get(o, o) for o in peg_bad] if pegrows is not None else None,
         "resource_exits_not_counted": resource_exits,
